@@ -490,6 +490,45 @@ Section Equiv.
     destruct (string_loop _ _ _ _); reflexivity.
   Qed.
 
+  (** Parser.int. PREMISE (carried, not proved here): the float value of the number token int() converts is
+      non-negative - text/scanner delivers a sign as a separate token, so a number token's text is unsigned; the model's
+      [int64_of_b64] is the conversion of a non-negative float only. *)
+  Lemma uint_loop_r_nonneg : forall s acc u, 0 <= acc -> uint_loop_r s acc = UOk u -> 0 <= u.
+  Proof.
+    induction s as [|c t IH]; intros acc u Ha H; cbn [uint_loop_r] in H.
+    - inversion H; subst; exact Ha.
+    - destruct (dig c) eqn:Ed; [|discriminate]. destruct (two64 <=? acc * 10 + (c - 48)); [discriminate|].
+      apply IH in H; [exact H|]. unfold dig in Ed. lia.
+  Qed.
+  Lemma parse_uint_r_nonneg : forall s u, parse_uint_r s = UOk u -> 0 <= u.
+  Proof. intros s u H. destruct s as [|z s]; [discriminate|]. apply (uint_loop_r_nonneg (z :: s) 0 u); [lia|exact H]. Qed.
+
+  Definition int_token (st : pstate) : option token :=
+    match optional_minus ilh idh F st with
+    | POk _ st1 => match next_token ilh idh F st1 with POk tok _ => Some tok | _ => None end
+    | _ => None
+    end.
+
+  Ltac zhyps :=
+    repeat match goal with
+    | H : (_ <=? _) = true |- _ => apply Z.leb_le in H | H : (_ <=? _) = false |- _ => apply Z.leb_gt in H
+    | H : (_ <? _) = true |- _ => apply Z.ltb_lt in H | H : (_ <? _) = false |- _ => apply Z.ltb_ge in H
+    | H : (_ =? _) = true |- _ => apply Z.eqb_eq in H | H : (_ =? _) = false |- _ => apply Z.eqb_neq in H
+    end.
+
+  Lemma TP_Parser_int_eq : forall st,
+    (forall tok b, int_token st = Some tok -> parse_float (t_txt tok) = Some b -> 0 <= b < two63) ->
+    Parser_int ilh idh F st = p_int ilh idh F st.
+  Proof.
+    intros st. unfold int_token, Parser_int, p_int, optional_minus, int_of_token, int_of_uint, int_of_float_text,
+      int64_of_b64, neg64, to_int64, b64_to_int64, b64_le, b64_lt, b64_key, bits_two63, two63, two64. norm.
+    repeat (first [ (intros _; reflexivity) | fstep ]).
+    all: intros Hp.
+    all: try (match goal with H : parse_uint_r _ = UOk _ |- _ => apply parse_uint_r_nonneg in H end).
+    all: try (match goal with H : parse_float _ = Some ?b |- _ => specialize (Hp _ b eq_refl H) end).
+    all: zhyps; try reflexivity; try (exfalso; lia); try (f_equal; lia).
+  Qed.
+
   (** ================================================================ Parse(): keyword switch and loop *)
   Ltac disp :=
     first [ apply TP_VersionDef_parseFrom_eq | apply TP_BitTimingDef_parseFrom_eq | apply TP_NewSymbolsDef_parseFrom_eq
